@@ -40,8 +40,8 @@ func defsC17() []*ph.Def {
 	out = append(out, d)
 	// lonesome dash option and single letter names
 	out = append(out, &ph.Def{Help: "help", Root: ph.CmdDef{Name: "prog",
-		Opts: []ph.OptDef{{Name: "-", Kind: ph.Bool}, {Name: "a", Kind: ph.Bool}, {Name: "ab", Kind: ph.Str, Suggested: []string{"x"}}, {Name: "abc", Kind: ph.StrOpt, Aliases: []string{"b"}}},
-		Cmds: []*ph.CmdDef{{Name: "a"}, {Name: "ab", Cmds: []*ph.CmdDef{{Name: "abc"}}}},
+		Opts:  []ph.OptDef{{Name: "-", Kind: ph.Bool}, {Name: "a", Kind: ph.Bool}, {Name: "ab", Kind: ph.Str, Suggested: []string{"x"}}, {Name: "abc", Kind: ph.StrOpt, Aliases: []string{"b"}}},
+		Cmds:  []*ph.CmdDef{{Name: "a"}, {Name: "ab", Cmds: []*ph.CmdDef{{Name: "abc"}}}},
 		ArgFn: true, ArgCompl: []string{"a", "abd"},
 	}})
 	// other modes (completion always uses normal interpretation of the line)
